@@ -24,7 +24,7 @@ RULE = (
     "-1|32768|65538|-65535 (int64 columns; -1, -128, -32768 in int8/int16 columns; NaN in a float column); a centre without object; no patch method; target exists as {catalog, directory "
     "with foreign content, empty directory, regular file, directory holding only foreign files named patch_*, the same plus a patch_0 directory} x overwrite {F,T}; an existing catalog without overwrite together with faulty input; parent directory missing; exception "
     "injected into the k-th worker task / the k-th writer call; overwrite + late fault} x chunk position "
-    "{first, middle, last} x source {data frame, HDF5} x workers {1,2,3}; for W>1 every schedule of the "
+    "{first, middle, last} x source {data frame, HDF5} x workers {1,2,3}; a Parquet source (row groups of 2) whose k-th row-group read fails with an Arrow error (injected at the file seam) x chunk lengths {2,3,4}; for W>1 every schedule of the "
     "virtual pool/queue/writer-process pipeline (partial-order reduced, see DESIGN.md E3b). Oracle: the call "
     "raises or returns a catalog holding exactly the input; no deadlock; a pre-existing path is untouched "
     "(recursive digest) unless it is a catalog cache and overwrite was requested; after a raised creation "
@@ -93,6 +93,14 @@ def cases(tier, seed):
         out.append(dict(fault="exists-and-fault", pos=pos, source="frame"))
     out.append(dict(fault="none", source="frame"))
     out.append(dict(fault="none", source="hdf"))
+    # a Parquet source (row groups of 2 records) whose k-th row group cannot be read: an error of the Arrow library at
+    # the file seam (chunk lengths 2, 3, 4: the failing group starts a chunk or completes one)
+    for chunk in (2, 3, 4):
+        out.append(dict(fault="none", source="parquet", chunk=chunk))
+        for k, err in itertools.product((0, 1, 2), ("ArrowInvalid", "ArrowMemoryError")):
+            if tier == "quick" and err == "ArrowMemoryError" and k != 2:
+                continue
+            out.append(dict(fault="read-error", source="parquet", chunk=chunk, k=k, err=err))
     for n, chunk in ((7, 3), (5, 5), (7, 4), (3, 1)):  # chunk lengths that are no multiple of the worker count
         out.append(dict(fault="none", source="frame", n=n, chunk=chunk))
     return out
@@ -172,7 +180,15 @@ class Scenario:
                         delta = case.get("delta", -1)
                         v = v[:delta] if delta < 0 else np.concatenate([v, v[:delta] + 0.125])
                     fh.create_dataset(k, data=v)
+        if case["source"] == "parquet":
+            import pyarrow as pa
+            from pyarrow import parquet
+
+            self.file = os.path.join(d, "input.parquet")
+            parquet.write_table(pa.table({k: v for k, v in cols.items() if k != "pid"}), self.file, row_group_size=2)
         self.inject = (case["where"], case["k"]) if f == "inject" else None
+        if f == "read-error":
+            self.inject = ("rowgroup", case["k"], case["err"])
         self.expect_ok = f == "none" or (f == "exists" and case["pre"] == "catalog" and case["overwrite"])
 
     def prepare_target(self, d):
@@ -216,7 +232,7 @@ class Scenario:
         from yaw import Catalog
 
         kw = dict(self.kw, overwrite=self.overwrite)
-        if self.case["source"] == "hdf":
+        if self.case["source"] in ("hdf", "parquet"):
             return Catalog.from_file(target, self.file, **kw)
         return Catalog.from_dataframe(target, self.df, **kw)
 
@@ -234,9 +250,30 @@ class Injector:
         self.C = C
         if self.inject is None:
             return self
-        where, k = self.inject
+        where, k = self.inject[:2]
         self.count = 0
-        if where == "worker":
+        if where == "rowgroup":
+            import pyarrow.lib as palib
+
+            from yaw.catalog import readers as R
+
+            self.R, self.orig = R, R.parquet.ParquetFile
+            real, err = self.orig, getattr(palib, self.inject[2])
+
+            class FaultyFile:
+                def __init__(self, *a, **kw):
+                    self._pf = real(*a, **kw)
+
+                def __getattr__(self, name):
+                    return getattr(self._pf, name)
+
+                def read_row_group(self, i, *a, **kw):
+                    if i == k:
+                        raise err(f"injected: row group {i} cannot be read")
+                    return self._pf.read_row_group(i, *a, **kw)
+
+            R.parquet.ParquetFile = FaultyFile
+        elif where == "worker":
             self.orig = C.split_into_patches
 
             def wrapped(chunk, centers):
@@ -262,7 +299,9 @@ class Injector:
     def __exit__(self, *a):
         if self.inject is None:
             return
-        if self.inject[0] == "worker":
+        if self.inject[0] == "rowgroup":
+            self.R.parquet.ParquetFile = self.orig
+        elif self.inject[0] == "worker":
             self.C.split_into_patches = self.orig
         else:
             self.C.CatalogWriter.process_patches = self.orig
